@@ -246,15 +246,16 @@ def run_history(ctx, judge, a0, b0, steps, variant, kind, sample_all=False):
     """Steps two live Motl objects through the history; steps: [{op, a, bch, b}] as computed by TLC."""
     from cryocat import cryomotl as cm
     case = {"kind": kind, "a0": a0, "b0": b0, "steps": steps, "variant": variant}
-    A = cm.Motl(rows_to_df(a0))
-    B = cm.Motl(rows_to_df(b0))
+    # row labels of the input tables: default, permuted or gapped (a list handed to cryoCAT may be any DataFrame)
+    A = cm.Motl(motlutil.vary_index(rows_to_df(a0), variant // 3))
+    B = cm.Motl(motlutil.vary_index(rows_to_df(b0), variant // 7))
     exp_a, exp_b = a0, b0
     for i, st in enumerate(steps):
         op = st["op"]
         if op["name"] == "fork":
             exp_b = st["b"]
             exp_a = st["a"]
-            B = cm.Motl(rows_to_df(exp_b))          # harness operation: a fresh table from the specification's state
+            B = cm.Motl(motlutil.vary_index(rows_to_df(exp_b), variant // 7 + i))          # harness operation: a fresh table from the specification's state
             continue
         (res, err) = core.call_guarded(apply_op, cm, A, B, op, variant + i)
         if err is not None:
